@@ -8,8 +8,7 @@
 
    Structure: the global assignment V<pv> = print; the global definitions at chunk level (globals_sim, one
    P_exec each); `local function V<sv>` (rel_define_fun); the body of `start` (fbody_sim, on top of SimStmt.P_all:
-   expressions, statements, statement lists and if-branch bodies together); fragment programs have no `ret`
-   (NoRet.NR_all), a break/continue that reaches the body of `start` makes the reference run OStuck (outside
+   expressions, statements, statement lists and if-branch bodies together); a break/continue that reaches the body of `start` makes the reference run OStuck (outside
    good_final), and the interpreter never stops with ODone (SemSane); program_sim for any Lua state with
    the preamble invariant; the preamble run (Preamble.pre_runs, exec_block_app_run). *)
 From Coq Require Import String Ascii List NArith ZArith QArith Bool Lia.
@@ -19,7 +18,7 @@ From Sylt Require Import Back.IR Back.Emit Back.ScopeProofs.
 From Sylt Require Import Pres.EmitAst Pres.EmitRel Pres.Names Pres.LuaFuel Pres.LuaEv Pres.Preamble Pres.Tie.
 From Sylt Require Import Pres.Frag.
 From Sylt Require Import Pres.SimDefs Pres.SimOps Pres.SimVals.
-From Sylt Require Import Pres.SimExpr Pres.LowerShape Pres.SimSteps Pres.SimExprProofs Pres.NoExit Pres.NoRet Pres.SimStmt Pres.SimCall.
+From Sylt Require Import Pres.SimExpr Pres.LowerShape Pres.SimSteps Pres.SimExprProofs Pres.NoExit Pres.SimStmt Pres.SimCall.
 From Sylt Require Pres.SemSane.
 From Sylt Require Import Pres.RunEq.
 From Sylt Require Import Lua.LuaAst Lua.LuaMap Lua.LuaNum Lua.LuaProofs Lua.LuaCore.
@@ -397,6 +396,7 @@ Proof.
     destruct (noexit_expr k condition && frag_expr pv sv bound fl k sc condition && is_some (frag_stmts pv sv bound fl k sc body))%bool; inversion H; auto.
   - inversion H; auto.
   - inversion H; auto.
+  - destruct value as [value|]; [|discriminate H]. rewrite frag_stmt_ret in H. destruct (frag_expr pv sv bound fl k sc value); inversion H; auto.
   - rewrite frag_stmt_block in H. destruct (frag_stmts pv sv bound fl k sc statements); inversion H; auto.
   - rewrite frag_stmt_sexpr in H. destruct (frag_expr pv sv bound fl k sc value); inversion H; auto.
 Qed.
@@ -763,13 +763,12 @@ Proof.
   { destruct Hctxg as [Hb Hl HF HE]. constructor; [lia | eapply lut_ok_sub; [exact Hl | lia | lia] | eapply F_out_sub; [exact HF | lia | lia] |].
     intros t0 Ht. unfold E1. rewrite sget_sset_var by lia. apply HE. lia. }
   destruct (SyltSem.block_value (S f') (start_env sv eg stg) body (start_state sv body eg stg)) as [rb stb] eqn:Hbv.
-  assert (Hna : match rb with SyltSem.RAbrupt _ => False | _ => True end).
+  assert (Hna : match rb with SyltSem.RAbrupt SyltSem.CBreak | SyltSem.RAbrupt SyltSem.CContinue => False | _ => True end).
   { destruct rb as [v|o|[| |v]]; try exact I.
     - cbn in Hgood. destruct Hgood.
-    - cbn in Hgood. destruct Hgood.
-    - exact (proj2 (proj2 (proj2 (NR_all pv sv bound flg (S f')))) k scg sc' _ body _ _ stb Hfb Hbv). }
+    - cbn in Hgood. destruct Hgood. }
   assert (Hint : interesting rb).
-  { destruct rb as [v|o|cc]; [exact I | | destruct Hna]. cbn in Hgood. destruct o; try destruct Hgood; try exact I.
+  { destruct rb as [v|o|[| |v]]; [exact I | | destruct Hna | destruct Hna | exact I]. cbn in Hgood. destruct o; try destruct Hgood; try exact I.
     exfalso. eapply SemSane.block_value_not_done. exact Hbv. }
   destruct (proj1 (proj2 (proj2 (proj2 (proj2 (P_all pv sv bound u (S f') flg Wg))))) (S f') k body 0 (cg + 1) bc cb _ _ rb stb scg sc' lg E1 st2 Fg
               Hbv Hbody Hfb Hubc Hctx2 Hrel2 Hint) as (b1 & l1 & Hs1 & Hpost).
@@ -779,7 +778,28 @@ Proof.
   unfold lua_result. fold code. rewrite Hcode.
   assert (Hev_sv : Eval E1 (EVar (fmt_var sv)) st2 (ROk (VFun fid) st2)).
   { rewrite <- Hcell. apply Eval_local. exact HE1sv. }
-  destruct rb as [v|o|cc]; [| |destruct Hna].
+  assert (Hdone : forall stL' vs, Call (VFun fid) [] st2 (ROk vs stL') -> SyltSem.trace stb = s_out stL' ->
+            exists r0 st, ExecBlock PLeaf [] (prog bg b0) st0 r0 /\ res_state_of r0 = st /\
+              rev (s_out st) = rev (SyltSem.trace stb) /\ exists E, r0 = ROk (E, SigNormal) st).
+  { intros stL' vs Hcall Htr.
+    pose proof (Exec_local E1 [fmt_var cb] [ECall (EVar (fmt_var sv)) []] st2 vs stL'
+                  (EvalList_one _ _ _ _ (EvalMulti_call _ _ _ _ _ (EvalCall_intro _ _ _ _ _ _ _ _ _ Hev_sv (EvalList_nil E1 st2) Hcall)))) as Hx3.
+    set (Ef := fst (bind_locals E1 [fmt_var cb] vs stL')) in *. set (stf := snd (bind_locals E1 [fmt_var cb] vs stL')) in *.
+    exists (ROk (Ef, SigNormal) stf), stf. splits.
+    + apply ExecBlock_of_ExecS; [|exact Hnlp | intros []].
+      unfold prog. eapply XS_cons; [exact Hx1|]. eapply ExecS_app; [exact Hxg|].
+      eapply XS_cons; [exact Hx2|]. eapply XS_cons; [exact Hx3 | apply XS_nil].
+    + reflexivity.
+    + unfold stf. rewrite bind_locals_one. cbn [snd alloc_cell s_out]. rewrite <- Htr. reflexivity.
+    + eauto. }
+  destruct rb as [v|o|[| |v]]; [| |destruct Hna|destruct Hna|].
+  3: { (* start returns early *)
+    destruct Hpost as (E' & stL' & lv & Hxb & _ & Hrelb & _).
+    pose proof (r_trace _ _ _ _ _ _ _ _ _ _ _ Hrelb) as Htr.
+    destruct (Hdone stL' [lv]) as (r0 & st & A & B & C & D); [|exact Htr|].
+    - eapply (Call_closure fid (mkClosure E1 [] b0)); [exact Hclo | reflexivity |].
+      cbn [c_body]. apply ExecBlock_of_ExecS; [exact Hxb | exact Hnl0 | intros []].
+    - exists r0, st. splits; assumption. }
   - (* start returns *)
     destruct Hpost as (E' & sg & stL' & sc2 & e2 & Hxb & Hsg' & Hrelb & _).
     pose proof (r_trace _ _ _ _ _ _ _ _ _ _ _ Hrelb) as Htr.
